@@ -87,6 +87,9 @@ func (w *ConfigurationWatcher) Start(ch chan<- controller.ID) error {
 		for event := range eventCh {
 			ch <- controller.NewID(proposalstore.NewID(event.Configuration.TargetID, event.Configuration.Index))
 			ch <- controller.NewID(proposalstore.NewID(event.Configuration.TargetID, event.Configuration.Status.Applied.Index))
+			// After a rollback Configuration.Index points below the committed index: also wake the last committed
+			// proposal, which re-queues its predecessors that wait for the configuration (e.g. for its synchronization)
+			ch <- controller.NewID(proposalstore.NewID(event.Configuration.TargetID, event.Configuration.Status.Committed.Index))
 		}
 	}()
 	return nil
